@@ -14,6 +14,8 @@ import (
 	"go/constant"
 	"go/types"
 	"os"
+	"path/filepath"
+	"sort"
 	"strings"
 	"time"
 
@@ -39,6 +41,46 @@ type fsWorld struct {
 	open    map[string]bool // handle → still open
 	paths   map[string]string
 	inGo    bool
+	// dir: what the log directory holds besides the files created during the evaluation (empty: ReadDir sees nothing)
+	dir []retEntry
+	// listAll: ReadDir lists the files created during the evaluation (with the time of their last write) even when dir
+	// is empty
+	listAll bool
+	mtime   map[string]time.Time
+}
+
+// entries: the directory listing (scripted entries plus the files created so far, modified "now"), sorted by name.
+func (w *fsWorld) entries() []retEntry {
+	if len(w.dir) == 0 && !w.listAll {
+		return nil
+	}
+	seen := map[string]bool{}
+	var out []retEntry
+	for _, e := range w.dir {
+		seen[e.name] = true
+		out = append(out, e)
+	}
+	for _, p := range w.paths {
+		if n := filepath.Base(p); !seen[n] {
+			seen[n] = true
+			mt := w.now
+			if t, ok := w.mtime[p]; ok {
+				mt = t
+			}
+			out = append(out, retEntry{name: n, mtime: mt})
+		}
+	}
+	sort.Slice(out, func(i, j int) bool { return out[i].name < out[j].name })
+	return out
+}
+
+func (w *fsWorld) entry(name string) (retEntry, bool) {
+	for _, e := range w.entries() {
+		if e.name == name {
+			return e, true
+		}
+	}
+	return retEntry{}, false
 }
 
 func (c *Ctx) newFsWorld(ro *Roles) (*fsWorld, *entryWorld, string) {
@@ -46,7 +88,7 @@ func (c *Ctx) newFsWorld(ro *Roles) (*fsWorld, *entryWorld, string) {
 	if ew == nil {
 		return nil, nil, why
 	}
-	w := &fsWorld{open: map[string]bool{}, paths: map[string]string{}}
+	w := &fsWorld{open: map[string]bool{}, paths: map[string]string{}, mtime: map[string]time.Time{}}
 	ip := newInterp(c)
 	ip.MaxSteps = 2000000
 	w.ip = ip
@@ -95,13 +137,28 @@ func (c *Ctx) newFsWorld(ro *Roles) (*fsWorld, *entryWorld, string) {
 			h := fmt.Sprintf("fd%d", w.nOpen)
 			w.open[h] = true
 			w.paths[h] = path
+			if _, had := w.mtime[path]; !had {
+				w.mtime[path] = w.now
+			}
 			w.events = append(w.events, fsEvent{op: "open", file: h, path: path, flag: flag})
 			return TupleV{&Sym{Name: h}, NilV{}}, true
 		case "os.MkdirAll", "os.Mkdir":
 			return NilV{}, true
 		case "os.ReadDir":
 			w.events = append(w.events, fsEvent{op: "readdir", path: avStr(args[0])})
+			if es := w.entries(); len(es) > 0 {
+				var vs []AV
+				for _, e := range es {
+					vs = append(vs, &IfaceV{T: types.Universe.Lookup("error").Type(), V: &Sym{Name: "dirent:" + e.name}})
+				}
+				return TupleV{ip.mkSlice(vs), NilV{}}, true
+			}
 			return TupleV{NilV{}, NilV{}}, true
+		case "os.Stat", "os.Lstat":
+			if e, ok := w.entry(filepath.Base(avStr(args[0]))); ok {
+				return TupleV{&IfaceV{T: types.Universe.Lookup("error").Type(), V: &Sym{Name: "finfo:" + e.name}}, NilV{}}, true
+			}
+			return TupleV{NilV{}, ip.errVal("no such file or directory")}, true
 		case "os.Remove":
 			w.events = append(w.events, fsEvent{op: "remove", path: avStr(args[0])})
 			return NilV{}, true
@@ -132,6 +189,7 @@ func (c *Ctx) newFsWorld(ro *Roles) (*fsWorld, *entryWorld, string) {
 			switch m {
 			case "Write":
 				w.events = append(w.events, fsEvent{op: "write", file: h, path: w.paths[h], data: string(avBytes(args[1]))})
+				w.mtime[w.paths[h]] = w.now
 				if !w.open[h] {
 					return TupleV{kInt(0), ip.errVal("file already closed")}, true
 				}
@@ -158,8 +216,15 @@ func (c *Ctx) newFsWorld(ro *Roles) (*fsWorld, *entryWorld, string) {
 		}
 		return nil, false
 	}
-	// os.Stderr / os.Stdout as opaque handles
+	// os.Stderr / os.Stdout as opaque handles; time.Local / time.UTC as one opaque zone
 	for _, p := range c.Prog.AllPackages() {
+		if p.Pkg.Path() == "time" {
+			for _, n := range []string{"Local", "UTC"} {
+				if g, ok := p.Members[n].(*ssa.Global); ok {
+					ip.Globals[g] = ip.newObj(&Sym{Name: "zone:UTC"})
+				}
+			}
+		}
 		if p.Pkg.Path() == "os" {
 			for _, n := range []string{"Stderr", "Stdout"} {
 				if g, ok := p.Members[n].(*ssa.Global); ok {
@@ -169,6 +234,29 @@ func (c *Ctx) newFsWorld(ro *Roles) (*fsWorld, *entryWorld, string) {
 		}
 	}
 	ip.OnInvoke = func(ip *Interp, recv *Sym, method string, args []AV) (AV, bool) {
+		if kind, name, ok := strings.Cut(recv.Name, ":"); ok && (kind == "dirent" || kind == "finfo") {
+			e, _ := w.entry(name)
+			mode := int64(0o644)
+			if e.dir {
+				mode |= 1 << 31
+			}
+			switch method {
+			case "Name":
+				return kStr(name), true
+			case "IsDir":
+				return kBool(e.dir), true
+			case "Type":
+				return kInt(mode &^ 0o777), true
+			case "Mode":
+				return kInt(mode), true
+			case "Info":
+				return TupleV{&IfaceV{T: types.Universe.Lookup("error").Type(), V: &Sym{Name: "finfo:" + name}}, NilV{}}, true
+			case "ModTime":
+				return &TimeV{T: e.mtime}, true
+			case "Size":
+				return kInt(10), true
+			}
+		}
 		switch method {
 		case "ToBytes":
 			return ip.mkSlice([]AV{kInt('e'), kInt('v'), kInt('\n')}), true
@@ -316,6 +404,7 @@ func (c *Ctx) checkFileAppenderSemantics(r *Report, ro *Roles, rule string) map[
 			r.Inconclusive(key, "%s", why)
 			continue
 		}
+		w.listAll = true // a directory scan sees the files created so far, dated by their last write
 		ip := w.ip
 		av := ip.zeroOf(T).(*StructV)
 		fillStruct(ip, av, T, func(parent *types.Struct, f *types.Var) (AV, bool) {
@@ -398,6 +487,17 @@ func (c *Ctx) checkFileAppenderSemantics(r *Report, ro *Roles, rule string) map[
 		}
 		steps = append(steps, step{what: "Stop while Sync reports an error", at: t1.Add(time.Hour), op: "stop", syncErr: true})
 		if rotating {
+			// a long silence (longer than the maximum age of 24 h) and then a boundary at which the next file cannot be
+			// created: the file kept open is old by its modification time, yet it is the file being written
+			t3 := t0.Add(40 * time.Hour)
+			b3 := t3.Truncate(10 * time.Minute).Add(10 * time.Minute)
+			steps = append(steps, step{what: "Start (before a long silence)", at: t3, op: "start"},
+				step{what: "a write before the silence", at: t3.Add(time.Second), op: "write", data: "q1\n"},
+				step{what: "the first write after 30 silent hours, at a boundary where the next file cannot be created", at: b3.Add(30*time.Hour + 2*time.Second), failing: true, op: "write", data: "q2\n"},
+				step{what: "a later write in that interval", at: b3.Add(30*time.Hour + 5*time.Minute), failing: true, op: "write", data: "q3\n"},
+				step{what: "Stop (after the silence)", at: b3.Add(31 * time.Hour), op: "stop"})
+		}
+		if rotating {
 			// a third life: stopped right after a boundary at which the next file could not be created (the appender
 			// still owns the previous file), then stopped again and restarted
 			t2 := t0.Add(8 * time.Hour)
@@ -473,13 +573,14 @@ func (c *Ctx) checkFileAppenderSemantics(r *Report, ro *Roles, rule string) map[
 					fails = append(fails, e)
 				case "write":
 					writes = append(writes, e)
-				case "readdir":
-					// listing the directory while starting (to find the file to resume) delays no log call
-					if stp.op == "write" {
-						fail("%s: the directory scan (%s %s) runs on the caller's goroutine", stp.what, e.op, e.path)
-					}
 				case "remove":
-					fail("%s: files are removed (%s %s) on the caller's goroutine", stp.what, e.op, e.path)
+					// a sweep on the caller's goroutine (after a failed open, at start-up) is not forbidden; removing a file
+					// that is open for writing is
+					for h, p := range w.paths {
+						if w.open[h] && filepath.Clean(p) == filepath.Clean(e.path) {
+							fail("%s: %s is removed while it is open for writing (the lines written to it from now on are lost)", stp.what, e.path)
+						}
+					}
 				}
 			}
 			for _, e := range append(append([]fsEvent{}, opens...), fails...) {
